@@ -263,7 +263,7 @@ def _normal_in():
 
 
 def _values(mx):
-    """a list of 1..4 output values; mostly within range, built around the MAX boundaries"""
+    """a list of output values (1..4, or many nearly equal ones); mostly within range, built around the MAX boundaries"""
     single = st.sampled_from([0, 1, 2, mx - 1, mx, mx + 1, 2**63 - 1, 2**63, 2**64 - 1, -1, 21000000 * COIN, 21000000 * COIN + 1, mx // 2])
     ok_small = st.lists(st.integers(0, 10**10), min_size=1, max_size=4)
 
@@ -279,7 +279,18 @@ def _values(mx):
                       st.integers(1, 3), st.lists(st.integers(0, 2**62), min_size=3, max_size=3), st.integers(0, 3), st.sampled_from([1, 0, 1, 2, mx]))
     with_single = st.builds(lambda vs, s, pos: vs[:pos % (len(vs) + 1)] + [s] + vs[pos % (len(vs) + 1):],
                             st.lists(st.integers(0, 1000), max_size=3), single, st.integers(0, 3))
-    return weighted([(25, ok_small), (25, exact), (20, cross), (30, with_single)])
+    # many outputs of (nearly) the same value whose total lands next to MAX: n * (MAX // n) and one unit more each; or all
+    # one below a power of two, with the count chosen so that the total is the first to exceed MAX
+    def equal(n, d, kind):
+        if kind == "pow2":
+            v = (1 << max(1, (mx // n).bit_length())) - 1 - d % 3
+            k = mx // v + 1                     # the smallest count whose total exceeds MAX
+            return [v] * (k if d % 2 == 0 else k - 1) if k <= 5000 else [mx // n] * n
+        v = mx // n + d
+        return [v] * n if kind == "same" else [v] * (n - 1) + [mx - (mx // n) * (n - 1) + d]
+    counts = st.one_of(st.integers(2, 70), st.sampled_from([15, 16, 30, 31, 32, 60, 62, 63, 64, 100, 120, 127, 128, 239, 255, 256, 1000]))
+    equal_total = st.builds(equal, counts, st.sampled_from([0, 1, 1, -1, 2]), st.sampled_from(["same", "same", "last-adjusted", "pow2"]))
+    return weighted([(25, ok_small), (25, exact), (20, cross), (30, with_single), (12, equal_total)])
 
 
 def _mk_outs(vals, scripts):
